@@ -17,6 +17,8 @@
                requests: list (method:string url:string)   url = "http://" Host RequestURI
                error class (0 none 1 notfound 2 forbidden 3 gone 4 uritoolong 5 unexpected 6 other)
                NotFound(err):bool  has_data:bool  data: list (kind id)  panicked:bool
+               content:bool (every returned element carries the text the server sent for it;
+               the model abstracts an element to (kind, id): decoding keeps its content)
    tag 2 (sequence): configured-base limiter | endpoint status body observed (first call)
                      | endpoint status body observed (second call)
                      | has_data:bool data (the first call's result re-read after the second call)
@@ -90,13 +92,14 @@ Record observed := {
   ob_notfound : bool;
   ob_has_data : bool;
   ob_data : list el;
-  ob_panic : bool }.
+  ob_panic : bool;
+  ob_content : bool }.
 
 Definition pobserved : P observed :=
   ev <- plist pint ;; rq <- plist (ppair pstr pstr) ;; c <- pint ;; nf <- pbool ;;
-  hd <- pbool ;; d <- plist pel ;; pn <- pbool ;;
+  hd <- pbool ;; d <- plist pel ;; pn <- pbool ;; ct <- pbool ;;
   ret {| ob_events := ev; ob_requests := rq; ob_class := c; ob_notfound := nf;
-         ob_has_data := hd; ob_data := d; ob_panic := pn |}.
+         ob_has_data := hd; ob_data := d; ob_panic := pn; ob_content := ct |}.
 
 Definition el_eqb (a b : el) : bool := (fst a =? fst b) && (snd a =? snd b).
 Definition els_eqb := list_eqb el_eqb.
@@ -117,7 +120,7 @@ Definition requests_of (t : list event) : list (str * str) :=
 (* judgement 1: the model's outcome equals the observation *)
 Definition model_agrees (cfg : str) (w : world) (ep : endpoint) (ob : observed) : bool :=
   let o := call_w cfg w ep in
-  negb (o_bad o) &&
+  negb (o_bad o) && ob_content ob &&
   list_eqb Z.eqb (map event_code (o_trace o)) (ob_events ob) &&
   list_eqb (fun a b => str_eqb (fst a) (fst b) && url_eqb (snd a) (snd b))
            (requests_of (o_trace o)) (ob_requests ob) &&
@@ -135,7 +138,7 @@ Definition spec_agrees (cfg : str) (w : world) (ep : endpoint) (ob : observed) :
   let want_events :=
     (if waits w ep then [1] else []) ++
     (if permitted w ep then repeat 2 (S (List.length hops)) else []) in
-  negb (ob_panic ob) &&
+  negb (ob_panic ob) && ob_content ob &&
   list_eqb Z.eqb want_events (ob_events ob) &&
   if permitted w ep then
     (* one GET of the documented URL, then exactly the hops the server named; then the
